@@ -15,6 +15,7 @@ type GT struct {
 	A, B *GT
 	Name string // rec / uni name (with type argument text for generic instances in Arg)
 	Arg  *GT    // type argument of a generic record/union instance
+	Arg2 *GT    // second type argument (records with two type parameters)
 }
 
 var (
@@ -37,6 +38,9 @@ func (t *GT) String() string {
 	case "tuple":
 		return t.A.String() + "*" + t.B.String()
 	case "rec", "uni":
+		if t.Arg != nil && t.Arg2 != nil {
+			return t.Name + "<" + t.Arg.String() + ", " + t.Arg2.String() + ">"
+		}
 		if t.Arg != nil {
 			return t.Name + "<" + t.Arg.String() + ">"
 		}
@@ -51,13 +55,25 @@ func (t *GT) Eq(o *GT) bool { return t.String() == o.String() }
 
 type gField struct {
 	Name string
-	T    *GT // nil: the record's type parameter
+	T    *GT // nil: one of the record's type parameters
+	TP   int // which one (0: T, 1: U)
 }
 type gRec struct {
 	Name    string
 	Fields  []gField
 	Generic bool
+	NParams int
 	item    int
+}
+
+// fieldSetKey identifies the set of field names of a record (what an unqualified literal is resolved by).
+func fieldSetKey(fs []gField) string {
+	var ns []string
+	for _, f := range fs {
+		ns = append(ns, f.Name)
+	}
+	sort.Strings(ns)
+	return strings.Join(ns, ",")
 }
 type gCase struct {
 	Name    string
@@ -87,6 +103,11 @@ type GItem struct {
 	Name string
 	Text string
 	Refs []int // indices of the earlier items this one references (exact)
+	// field-name sets of the records this item declares / of the unqualified record literals it contains: an
+	// unqualified literal denotes the latest declared record with its field set, so items that declare and items
+	// that use one and the same set must keep their relative order
+	DeclSets []string
+	UseSets  []string
 }
 
 type GenOpts struct {
@@ -105,6 +126,8 @@ type GenOpts struct {
 	AndHeavy       bool // mostly type groups (many cumulative forward references)
 	Collide        bool // user types take short names that also occur inside package_info blocks (Buffer, Dict, K, V ...)
 	AmbiguousCases bool // unions may reuse the case names of an earlier union (C05 only)
+	Shadow         bool // locals, parameters and pattern variables reuse the names of top-level definitions
+	NestedGeneric  bool // records with two type parameters, generic instances as type arguments
 }
 
 type Gen struct {
@@ -121,6 +144,10 @@ type Gen struct {
 
 	collide     []string
 	forwardRefs int // forward references inside type groups so far
+	declSets    map[string]bool
+	useSets     map[string]bool
+	shadowPool  []string
+	familyDone  bool
 }
 
 func swarmOpts(r *common.Rng) GenOpts {
@@ -136,11 +163,16 @@ func swarmOpts(r *common.Rng) GenOpts {
 		TypeGroups:    r.Chance(1, 2),
 		AndHeavy:      r.Chance(1, 12),
 		Collide:       r.Chance(1, 4),
+		Shadow:        r.Chance(1, 3),
+		NestedGeneric: r.Chance(1, 2),
 	}
 }
 
 func newGen(r *common.Rng, o GenOpts, tag string) *Gen {
-	g := &Gen{r: r, o: o, tag: tag, refs: map[int]bool{}}
+	g := &Gen{r: r, o: o, tag: tag, refs: map[int]bool{}, declSets: map[string]bool{}, useSets: map[string]bool{}}
+	if o.Shadow {
+		g.shadowPool = []string{"limit", "acc", "x", "v", "s", "n", "item", "cur", "res", "tmp"}
+	}
 	if o.Collide && tag == "" {
 		// short names that also occur inside the package_info blocks of pkg_all.foi (type parameters, external types)
 		g.collide = []string{"Buffer", "Dict", "K", "V", "S", "Item", "Node"}
@@ -182,7 +214,9 @@ func (g *Gen) push(kind, name, text string) int {
 	}
 	sort.Ints(refs)
 	g.refs = map[int]bool{}
-	g.items = append(g.items, GItem{Kind: kind, Name: name, Text: text, Refs: refs})
+	it := GItem{Kind: kind, Name: name, Text: text, Refs: refs, DeclSets: sortedKeys(g.declSets), UseSets: sortedKeys(g.useSets)}
+	g.declSets, g.useSets = map[string]bool{}, map[string]bool{}
+	g.items = append(g.items, it)
 	return len(g.items) - 1
 }
 
@@ -206,7 +240,11 @@ func (g *Gen) randType(depth int) *GT {
 	case n < 10 && len(g.recs) > 0:
 		rc := g.recs[g.r.Intn(len(g.recs))]
 		if rc.Generic {
-			return &GT{K: "rec", Name: rc.Name, Arg: g.baseType()}
+			t := &GT{K: "rec", Name: rc.Name, Arg: g.argType(depth)}
+			if rc.NParams == 2 {
+				t.Arg2 = g.argType(depth)
+			}
+			return t
 		}
 		return &GT{K: "rec", Name: rc.Name}
 	case n < 12 && len(g.unis) > 0:
@@ -215,6 +253,28 @@ func (g *Gen) randType(depth int) *GT {
 			return &GT{K: "uni", Name: u.Name, Arg: g.baseType()}
 		}
 		return &GT{K: "uni", Name: u.Name}
+	}
+	return g.baseType()
+}
+
+// argType: a type argument. Mostly base types; with the NestedGeneric knob also instances of generic records
+// (Box<Pair<int, string>>), which differ only in their inner arguments.
+func (g *Gen) argType(depth int) *GT {
+	if g.o.NestedGeneric && depth > 0 && g.r.Chance(1, 2) {
+		var gen []*gRec
+		for _, rc := range g.recs {
+			if rc.Generic {
+				gen = append(gen, rc)
+			}
+		}
+		if len(gen) > 0 {
+			rc := gen[g.r.Intn(len(gen))]
+			t := &GT{K: "rec", Name: rc.Name, Arg: g.baseType()}
+			if rc.NParams == 2 {
+				t.Arg2 = g.baseType()
+			}
+			return t
+		}
 	}
 	return g.baseType()
 }
@@ -255,10 +315,16 @@ func (g *Gen) useType(t *GT) {
 	if t.Arg != nil {
 		g.useType(t.Arg)
 	}
+	if t.Arg2 != nil {
+		g.useType(t.Arg2)
+	}
 }
 
 func fieldType(rc *gRec, f gField, inst *GT) *GT {
 	if f.T == nil {
+		if f.TP == 1 {
+			return inst.Arg2
+		}
 		return inst.Arg
 	}
 	return f.T
@@ -274,19 +340,69 @@ func (s *scope) with(v ...*gVar) *scope {
 	return &scope{vars: append(append([]*gVar{}, s.vars...), v...)}
 }
 
-func (g *Gen) varsOf(t *GT, env *scope) []*gVar {
-	var out []*gVar
+func (env *scope) has(name string) bool {
 	for _, v := range env.vars {
-		if v.T.Eq(t) {
+		if v.Name == name {
+			return true
+		}
+	}
+	return false
+}
+
+// visible: innermost binding wins; a local hides an outer local and a top-level definition of the same name.
+func (g *Gen) visible(env *scope) []*gVar {
+	var out []*gVar
+	seen := map[string]bool{}
+	for i := len(env.vars) - 1; i >= 0; i-- {
+		v := env.vars[i]
+		if !seen[v.Name] {
+			seen[v.Name] = true
 			out = append(out, v)
 		}
 	}
 	for _, v := range g.vars {
+		if !seen[v.Name] {
+			out = append(out, v)
+		}
+	}
+	return out
+}
+
+func (g *Gen) varsOf(t *GT, env *scope) []*gVar {
+	var out []*gVar
+	for _, v := range g.visible(env) {
 		if v.T.Eq(t) {
 			out = append(out, v)
 		}
 	}
 	return out
+}
+
+// localName names a parameter, local, lambda parameter or pattern variable. With the Shadow knob it may take the
+// name of a top-level definition (or a name a later top-level definition will take): scoping must keep them apart.
+func (g *Gen) localName(prefix string, env *scope) string {
+	if g.o.Shadow && g.r.Chance(1, 3) {
+		var cands []string
+		for _, v := range g.vars {
+			cands = append(cands, v.Name)
+		}
+		for _, f := range g.funs {
+			if !strings.Contains(f.Name, ".") {
+				cands = append(cands, f.Name)
+			}
+		}
+		cands = append(cands, g.shadowPool...)
+		var free []string
+		for _, n := range cands {
+			if !env.has(n) {
+				free = append(free, n)
+			}
+		}
+		if len(free) > 0 {
+			return free[g.r.Intn(len(free))]
+		}
+	}
+	return g.fresh(prefix)
 }
 
 func (g *Gen) intLit() string { return fmt.Sprint(g.r.Intn(100)) }
@@ -358,7 +474,7 @@ func matchingClose(e string, at int) int {
 func (g *Gen) callOf(t *GT, env *scope, d int) (string, bool) {
 	var cands []*gFun
 	for _, f := range g.funs {
-		if f.Ret.Eq(t) {
+		if f.Ret.Eq(t) && !env.has(f.Name) {
 			cands = append(cands, f)
 		}
 	}
@@ -395,7 +511,7 @@ func (g *Gen) expr(t *GT, env *scope, d int) string {
 	}
 	// field access through a record-typed variable
 	if d > 0 && g.r.Chance(1, 4) {
-		for _, v := range append(append([]*gVar{}, env.vars...), g.vars...) {
+		for _, v := range g.visible(env) {
 			if v.T.K != "rec" {
 				continue
 			}
@@ -440,8 +556,8 @@ func (g *Gen) expr(t *GT, env *scope, d int) string {
 			return `frt.Sprintf1 "%d" ` + g.atom(tInt, env, d-1)
 		case 2:
 			var names []string
-			for _, v := range env.vars {
-				if v.T.K == "int" || v.T.K == "string" {
+			for _, v := range g.visible(env) {
+				if v.item == -1 && (v.T.K == "int" || v.T.K == "string") {
 					names = append(names, v.Name)
 				}
 			}
@@ -487,10 +603,10 @@ func (g *Gen) expr(t *GT, env *scope, d int) string {
 		switch g.r.Intn(8) {
 		case 0:
 			src := g.baseType()
-			x := &gVar{Name: g.fresh("x"), T: src, item: -1}
+			x := &gVar{Name: g.localName("x", env), T: src, item: -1}
 			return "slice.Map (fun " + x.Name + " -> " + g.expr(t.A, env.with(x), d-1) + ") " + g.atom(tSlice(src), env, d-1)
 		case 1:
-			x := &gVar{Name: g.fresh("x"), T: t.A, item: -1}
+			x := &gVar{Name: g.localName("x", env), T: t.A, item: -1}
 			return "slice.Filter (fun " + x.Name + " -> " + g.expr(tBool, env.with(x), d-1) + ") " + g.atom(t, env, d-1)
 		case 2:
 			return g.atom(t, env, d-1) + " |> slice.Take " + fmt.Sprint(g.r.Intn(3))
@@ -499,7 +615,7 @@ func (g *Gen) expr(t *GT, env *scope, d int) string {
 		case 4:
 			return "slice.Append " + g.atom(t, env, d-1) + " " + g.atom(t, env, d-1)
 		case 5:
-			x := &gVar{Name: g.fresh("x"), T: t.A, item: -1}
+			x := &gVar{Name: g.localName("x", env), T: t.A, item: -1}
 			return g.atom(t, env, d-1) + " |> slice.Filter (fun " + x.Name + " -> " + g.expr(tBool, env.with(x), d-1) + ") |> slice.Tail"
 		}
 		n := g.r.Range(1, 3)
@@ -513,9 +629,24 @@ func (g *Gen) expr(t *GT, env *scope, d int) string {
 	case "rec":
 		rc := g.findRec(t.Name)
 		g.use(rc.item)
+		key := fieldSetKey(rc.Fields)
+		// an unqualified literal denotes the latest declared record with this field set; say Rec.Field= otherwise
+		qualify := false
+		for _, o := range g.recs {
+			if o != rc && o.item >= rc.item && fieldSetKey(o.Fields) == key {
+				qualify = true
+			}
+		}
+		if !qualify {
+			g.useSets[key] = true
+		}
 		var fs []string
-		for _, f := range rc.Fields {
-			fs = append(fs, f.Name+"="+g.expr(fieldType(rc, f, t), env, d-1))
+		for i, f := range rc.Fields {
+			fn := f.Name
+			if qualify && i == 0 {
+				fn = rc.Name + "." + fn
+			}
+			fs = append(fs, fn+"="+g.expr(fieldType(rc, f, t), env, d-1))
 		}
 		return "{" + strings.Join(fs, "; ") + "}"
 	case "uni":
@@ -575,13 +706,13 @@ func (g *Gen) body(t *GT, env *scope, indent int, d int) []string {
 		case 0, 1, 2:
 			vt := g.randType(1)
 			g.useType(vt)
-			v := &gVar{Name: g.fresh("v"), T: vt, item: -1}
+			v := &gVar{Name: g.localName("v", env), T: vt, item: -1}
 			lines = append(lines, ind(indent)+"let "+v.Name+" = "+g.expr(vt, env, 2))
 			env = env.with(v)
 		case 3:
 			a, b := g.baseType(), g.baseType()
-			va := &gVar{Name: g.fresh("a"), T: a, item: -1}
-			vb := &gVar{Name: g.fresh("b"), T: b, item: -1}
+			va := &gVar{Name: g.localName("a", env), T: a, item: -1}
+			vb := &gVar{Name: g.localName("b", env), T: b, item: -1}
 			lhs := "(" + va.Name + ", " + vb.Name + ")"
 			if g.r.Chance(1, 4) {
 				lhs = "(" + va.Name + ", _)"
@@ -600,19 +731,19 @@ func (g *Gen) body(t *GT, env *scope, indent int, d int) []string {
 		case 5:
 			if g.o.LocalFuncs && d > 0 {
 				pt, rt := g.baseType(), g.baseType()
-				p := &gVar{Name: g.fresh("p"), T: pt, item: -1}
+				p := &gVar{Name: g.localName("p", env), T: pt, item: -1}
 				fn := g.fresh("lf")
 				lines = append(lines, ind(indent)+"let "+fn+" ("+p.Name+":"+pt.String()+") =")
 				lines = append(lines, g.body(rt, env.with(p), indent+2, 0)...)
 				// use it once
-				v := &gVar{Name: g.fresh("v"), T: rt, item: -1}
+				v := &gVar{Name: g.localName("v", env), T: rt, item: -1}
 				lines = append(lines, ind(indent)+"let "+v.Name+" = "+fn+" "+g.atom(pt, env, 1))
 				env = env.with(v)
 			}
 		case 6:
 			if d > 0 {
 				vt := g.baseType()
-				v := &gVar{Name: g.fresh("v"), T: vt, item: -1}
+				v := &gVar{Name: g.localName("v", env), T: vt, item: -1}
 				lines = append(lines, ind(indent)+"let "+v.Name+" =")
 				lines = append(lines, g.final(vt, env, indent+2, d-1)...)
 				env = env.with(v)
@@ -641,7 +772,7 @@ func (g *Gen) final(t *GT, env *scope, indent int, d int) []string {
 	case k < 3 || (g.o.MatchHeavy && k < 5):
 		// union match on a variable in scope (or a constructed value)
 		var uv []*gVar
-		for _, v := range append(append([]*gVar{}, env.vars...), g.vars...) {
+		for _, v := range g.visible(env) {
 			if v.T.K == "uni" {
 				uv = append(uv, v)
 			}
@@ -686,7 +817,7 @@ func (g *Gen) final(t *GT, env *scope, indent int, d int) []string {
 				lines = append(lines, ind(indent)+"| "+l+" -> "+g.expr(t, env, 1))
 			}
 			if g.r.Chance(1, 2) {
-				w := &gVar{Name: g.fresh("w"), T: tString, item: -1}
+				w := &gVar{Name: g.localName("w", env), T: tString, item: -1}
 				lines = append(lines, ind(indent)+"| "+w.Name+" -> "+g.expr(t, env.with(w), 1))
 			} else {
 				lines = append(lines, ind(indent)+"| _ -> "+g.expr(t, env, 1))
@@ -695,7 +826,7 @@ func (g *Gen) final(t *GT, env *scope, indent int, d int) []string {
 		}
 	case k < 8:
 		if t.K == "slice" {
-			x := &gVar{Name: g.fresh("x"), T: t.A, item: -1}
+			x := &gVar{Name: g.localName("x", env), T: t.A, item: -1}
 			return []string{ind(indent) + g.atom(t, env, 1),
 				ind(indent) + "|> slice.Filter (fun " + x.Name + " -> " + g.expr(tBool, env.with(x), 1) + ")",
 				ind(indent) + "|> slice.Tail"}
@@ -726,7 +857,7 @@ func (g *Gen) unionMatch(target string, ut *GT, t *GT, env *scope, indent int, d
 			if g.r.Chance(1, 4) {
 				head += " _"
 			} else {
-				pv := &gVar{Name: g.fresh("m"), T: pt, item: -1}
+				pv := &gVar{Name: g.localName("m", env), T: pt, item: -1}
 				head += " " + pv.Name
 				sub = env.with(pv)
 			}
@@ -756,34 +887,52 @@ func (g *Gen) itemRecord() {
 	if g.o.Ambiguous && len(g.recs) > 0 && g.r.Chance(1, 2) {
 		src := g.recs[g.r.Intn(len(g.recs))]
 		if !src.Generic {
-			for _, f := range src.Fields {
+			for _, k := range g.r.Perm(len(src.Fields)) { // same set, declaration order need not be the same
+				f := src.Fields[k]
 				rc.Fields = append(rc.Fields, f)
 				g.useType(f.T)
 				fs = append(fs, f.Name+": "+f.T.String())
 			}
 			rc.item = len(g.items)
 			g.recs = append(g.recs, rc)
+			g.declSets[fieldSetKey(rc.Fields)] = true
 			g.push("type", name, "type "+name+" = {"+strings.Join(fs, "; ")+"}\n\n")
 			return
 		}
 	}
-	for i := 0; i < n; i++ {
+	two := generic && g.o.NestedGeneric && g.r.Chance(1, 2)
+	if two && n < 2 {
+		n = 2
+	}
+	order := g.r.Perm(n) // field names need not be declared in alphabetical order
+	for _, i := range order {
 		fn := fmt.Sprintf("%sF%d", name, i)
 		if generic && i == 0 {
-			rc.Fields = append(rc.Fields, gField{fn, nil})
+			rc.Fields = append(rc.Fields, gField{Name: fn})
 			fs = append(fs, fn+": T")
+			continue
+		}
+		if two && i == 1 {
+			rc.Fields = append(rc.Fields, gField{Name: fn, TP: 1})
+			fs = append(fs, fn+": U")
 			continue
 		}
 		ft := g.randType(1)
 		g.useType(ft)
-		rc.Fields = append(rc.Fields, gField{fn, ft})
+		rc.Fields = append(rc.Fields, gField{Name: fn, T: ft})
 		fs = append(fs, fn+": "+ft.String())
 	}
 	rc.Generic = generic
 	rc.item = len(g.items)
+	g.declSets[fieldSetKey(rc.Fields)] = true
 	hd := "type " + name
 	if generic {
+		rc.NParams = 1
 		hd += "<T>"
+		if two {
+			rc.NParams = 2
+			hd = "type " + name + "<T, U>"
+		}
 	}
 	var text string
 	if g.r.Chance(1, 3) {
@@ -888,7 +1037,17 @@ func (g *Gen) itemPkgInfo() {
 func (g *Gen) itemVar() {
 	t := []*GT{tInt, tString, tSlice(tInt), tBool}[g.r.Intn(4)]
 	name := g.fresh("gv")
+	if len(g.shadowPool) > 0 && g.r.Chance(1, 2) {
+		i := g.r.Intn(len(g.shadowPool))
+		name = g.shadowPool[i]
+		g.shadowPool = append(g.shadowPool[:i], g.shadowPool[i+1:]...)
+	}
 	text := "let " + name + " = " + g.expr(t, &scope{}, 1) + "\n\n"
+	if g.r.Chance(1, 3) {
+		// a top-level value computed by a block: match rules and nested lets at the root bind pattern variables and
+		// locals that must not outlive the definition
+		text = "let " + name + " =\n" + strings.Join(g.final(t, &scope{}, 2, 1), "\n") + "\n\n"
+	}
 	item := len(g.items)
 	g.push("let", name, text)
 	g.vars = append(g.vars, &gVar{Name: name, T: t, item: item})
@@ -906,7 +1065,7 @@ func (g *Gen) itemFunc() {
 	for i := 0; i < np; i++ {
 		pt := g.randType(1)
 		g.useType(pt)
-		p := &gVar{Name: g.fresh("p"), T: pt, item: -1}
+		p := &gVar{Name: g.localName("p", env), T: pt, item: -1}
 		env = env.with(p)
 		f.Params = append(f.Params, pt)
 		if g.r.Intn(1000) < g.o.UnannotatedPm && pt.K != "rec" && pt.K != "uni" {
@@ -968,6 +1127,11 @@ func (g *Gen) itemMain() {
 
 func (g *Gen) oneItem() {
 	n := g.r.Intn(20)
+	if g.o.NestedGeneric && !g.familyDone && g.r.Chance(1, 6) {
+		g.familyDone = true
+		g.itemGenericFamily()
+		return
+	}
 	switch {
 	case g.o.AndHeavy && n < 14:
 		g.itemTypeGroup()
@@ -1251,9 +1415,10 @@ func (g *Gen) itemTypeGroup() {
 				} else {
 					ft = g.baseType()
 				}
-				rc.Fields = append(rc.Fields, gField{fn, ft})
+				rc.Fields = append(rc.Fields, gField{Name: fn, T: ft})
 				fs = append(fs, fn+": "+ft.String())
 			}
+			g.declSets[fieldSetKey(rc.Fields)] = true
 			parts = append(parts, kw+" "+rc.Name+" = {"+strings.Join(fs, "; ")+"}")
 		}
 	}
@@ -1288,4 +1453,123 @@ func fileName(style int, stem string, idx int) string {
 		return fmt.Sprintf("%s%d.fo.fo", stem, idx)
 	}
 	return fmt.Sprintf("%s%d.fo", stem, idx)
+}
+
+// itemGenericFamily is a schema: one generic container and one generic pair, two producer functions whose result
+// types are instances that differ only in their *inner* type arguments (swapped, another base type, slices, nested
+// containers), a consumer that obtains one instance indirectly (through the producer's result, without writing the
+// type) and reads a field whose type depends on the inner arguments, and an unrelated definition that mentions the
+// other instance. Any registry or cache keyed too coarsely on type arguments makes the consumer's translation
+// depend on whether, and where, the unrelated definition is present.
+func (g *Gen) itemGenericFamily() {
+	k := g.fresh("K")
+	pair := &gRec{Name: "Pair" + k, Generic: true, NParams: 2, item: len(g.items),
+		Fields: []gField{{Name: "Fst" + k}, {Name: "Snd" + k, TP: 1}}}
+	g.declSets[fieldSetKey(pair.Fields)] = true
+	g.recs = append(g.recs, pair)
+	g.push("type", pair.Name, "type "+pair.Name+"<T, U> = {Fst"+k+": T; Snd"+k+": U}\n\n")
+	box := &gRec{Name: "Box" + k, Generic: true, NParams: 1, item: len(g.items),
+		Fields: []gField{{Name: "Val" + k}, {Name: "Tag" + k, T: tInt}}}
+	g.declSets[fieldSetKey(box.Fields)] = true
+	g.recs = append(g.recs, box)
+	g.push("type", box.Name, "type "+box.Name+"<T> = {Val"+k+": T; Tag"+k+": int}\n\n")
+
+	lit := func(t *GT) string {
+		switch t.K {
+		case "int":
+			return g.intLit()
+		case "string":
+			return g.strLit()
+		case "bool":
+			return "true"
+		case "slice":
+			return "[" + map[string]string{"int": "1; 2", "string": "\"a\"; \"b\"", "bool": "true"}[t.A.K] + "]"
+		}
+		return "0"
+	}
+	var mk func(t *GT) string
+	mk = func(t *GT) string {
+		if t.K == "rec" && t.Name == pair.Name {
+			return "{Fst" + k + "=" + mk(t.Arg) + "; Snd" + k + "=" + mk(t.Arg2) + "}"
+		}
+		if t.K == "rec" && t.Name == box.Name {
+			return "{Val" + k + "=" + mk(t.Arg) + "; Tag" + k + "=" + g.intLit() + "}"
+		}
+		return lit(t)
+	}
+	pairOf := func(a, b *GT) *GT { return &GT{K: "rec", Name: pair.Name, Arg: a, Arg2: b} }
+	boxOf := func(a *GT) *GT { return &GT{K: "rec", Name: box.Name, Arg: a} }
+	var ta, tb *GT
+	switch g.r.Intn(5) {
+	case 0:
+		ta, tb = boxOf(pairOf(tInt, tString)), boxOf(pairOf(tString, tInt))
+	case 1:
+		ta, tb = boxOf(pairOf(tInt, tInt)), boxOf(pairOf(tInt, tString))
+	case 2:
+		ta, tb = boxOf(boxOf(tInt)), boxOf(boxOf(tString))
+	case 3:
+		ta, tb = pairOf(boxOf(tInt), tInt), pairOf(boxOf(tString), tInt)
+	default:
+		ta, tb = boxOf(pairOf(tSlice(tInt), tBool)), boxOf(pairOf(tSlice(tString), tBool))
+	}
+	// the field path from an instance down to a value whose type depends on the inner argument
+	var path func(t *GT) []string
+	path = func(t *GT) []string {
+		if t.K == "rec" && t.Name == box.Name {
+			return append([]string{"Val" + k}, path(t.Arg)...)
+		}
+		if t.K == "rec" && t.Name == pair.Name {
+			return append([]string{"Fst" + k}, path(t.Arg)...)
+		}
+		return nil
+	}
+	mkA, mkB := g.fresh("mkA"), g.fresh("mkB")
+	for _, d := range []struct {
+		name string
+		t    *GT
+	}{{mkA, ta}, {mkB, tb}} {
+		g.use(pair.item)
+		g.use(box.item)
+		item := len(g.items)
+		g.push("let", d.name, "let "+d.name+" () : "+d.t.String()+" =\n  "+mk(d.t)+"\n\n")
+		g.funs = append(g.funs, &gFun{Name: d.name, Ret: d.t, item: item})
+	}
+	// consumer of instance A: the type is never written, it arrives through mkA's result
+	{
+		name := g.fresh("useA")
+		lines := []string{"let " + name + " () =", "  let b = " + mkA + " ()"}
+		cur := "b"
+		for i, f := range path(ta) {
+			v := fmt.Sprintf("w%d", i)
+			lines = append(lines, "  let "+v+" = "+cur+"."+f)
+			cur = v
+		}
+		lines = append(lines, "  "+cur)
+		for _, f := range g.funs {
+			if f.Name == mkA {
+				g.use(f.item)
+			}
+		}
+		g.use(pair.item)
+		g.use(box.item)
+		g.push("let", name, strings.Join(lines, "\n")+"\n\n")
+	}
+	// an unrelated definition that mentions instance B (annotation, or through mkB)
+	{
+		name := g.fresh("otherB")
+		g.use(pair.item)
+		g.use(box.item)
+		var text string
+		if g.r.Chance(1, 2) {
+			text = "let " + name + " (b: " + tb.String() + ") =\n  b." + strings.Join(path(tb), ".") + "\n\n"
+		} else {
+			for _, f := range g.funs {
+				if f.Name == mkB {
+					g.use(f.item)
+				}
+			}
+			text = "let " + name + " () =\n  let b = " + mkB + " ()\n  b." + strings.Join(path(tb), ".") + "\n\n"
+		}
+		g.push("let", name, text)
+	}
 }
